@@ -41,6 +41,20 @@ type C05Cfg struct {
 	// reliable-broadcast layer: the key generation protocol must also withstand the deviations that the
 	// layers above it would mask (duplicates, several messages of one kind, arbitrary order).
 	Direct bool `json:"direct,omitempty"`
+	// Component: which component of a Pointcheval-Sanders share / public key (x, y_1 .. y_k) a deviation alters:
+	// 0 = x, -1 = the last y, k > 0 = y_((k-1) mod number of ys) + 1. (BLS has one component.)
+	Component int `json:"component,omitempty"`
+}
+
+// component returns a pointer to the chosen component of k.
+func (cfg *C05Cfg) component(k *xys) *[]byte {
+	switch {
+	case cfg.Component == 0 || len(k.Ys) == 0:
+		return &k.X
+	case cfg.Component < 0:
+		return &k.Ys[len(k.Ys)-1]
+	}
+	return &k.Ys[(cfg.Component-1)%len(k.Ys)]
 }
 
 var c05Deviations = []string{"none", "share-off", "reveal-mismatch", "consistent-off-poly", "equivocate-commit", "equivocate-reveal", "malformed", "duplicate", "early-reveal", "second-commit", "late-share", "withhold"}
@@ -84,6 +98,9 @@ func genC05(seed uint64, index int, tier string) C05Cfg {
 	c.MsgType = 1 + r.Intn(3)
 	c.Mutation = c05Mutations[r.Intn(len(c05Mutations))]
 	c.Direct = prng.Derive(seed, "direct").Bool(0.3)
+	if rc := prng.Derive(seed, "component"); backend == "ps" {
+		c.Component = []int{0, 0, -1, -1, -1, 1, 2, 3}[rc.Intn(8)]
+	}
 	// 40% of the runs: the same scenario over small non-contiguous identifiers (order-preserving renaming)
 	if rs := prng.Derive(seed, "sparse-ids"); rs.Bool(0.4) {
 		m := map[uint16]uint16{}
@@ -143,7 +160,7 @@ func (a *c05Adversary) otherKey(body []byte, label string) []byte {
 	if _, err := asn1.Unmarshal(body, &k); err != nil {
 		return a.randomG2(label)
 	}
-	k.X = a.randomG2(label)
+	*a.cfg.component(&k) = a.randomG2(label)
 	out, _ := asn1.Marshal(k)
 	return out
 }
@@ -160,9 +177,9 @@ func (a *c05Adversary) alterShare(body []byte) []byte {
 	if _, err := asn1.Unmarshal(body, &k); err != nil {
 		return body
 	}
-	if len(k.X) > 0 {
-		k.X = append([]byte(nil), k.X...)
-		k.X[len(k.X)-1] ^= 1
+	if c := a.cfg.component(&k); len(*c) > 0 {
+		*c = append([]byte(nil), (*c)...)
+		(*c)[len(*c)-1] ^= 1
 	}
 	out, _ := asn1.Marshal(k)
 	return out
